@@ -29,3 +29,12 @@ func closureIsNoop(fn *ssa.Function) bool {
 	}
 	return true
 }
+
+// markLemmaUsed records that a verified function relied on lemma l, so that the
+// check also discharges the lemma's own obligations.
+func (e *Engine) markLemmaUsed(l *Lemma) {
+	if e.usedLemmas == nil {
+		e.usedLemmas = map[*Lemma]bool{}
+	}
+	e.usedLemmas[l] = true
+}
